@@ -1,17 +1,32 @@
-(* C17: jls_copy as a transformation of writer programs.  Definitions only (proofs: CopyProofs.v).
+(* C17: jls_copy as a transformation of writer programs.  Definitions only (proofs: CopyProofs.v .. CopyProofs6.v,
+   statements: Properties_C17.v).
 
-   jls_copy (src/copy.c) walks the chunks of the original in file order and re-issues writer calls on a fresh
-   writer.  Relative to the accepted calls of the original program this is the relation [cp_reissue] below;
-   [cp_prog] is an executable instance of it (read the content, re-issue it).  Everything is stated against
+   jls_copy (src/copy.c) opens a fresh writer, walks the chunks of the original in file order and re-issues one writer
+   call per SOURCE_DEF / SIGNAL_DEF (ids other than 0) / FSR DATA / ANNOTATION DATA / UTC DATA / USER_DATA (storage type
+   other than INVALID) chunk; every other chunk (track DEF / HEAD / INDEX / SUMMARY, END) is skipped.  Relative to the
+   accepted calls of the original program this is the relation [cp_reissue] below; [cp_prog] is an executable instance
+   (read the content, re-issue it) and [cp_reissue_b] an executable sufficient check.  Everything is stated against
    Spec.spec_of; "reads back the same" is equality of [cp_obs], which is built from the reader functions of Spec.v.
+   The theorems hold for ALL programs, without any well-formedness guard (CopyProofs4.cp_reissue_preserves,
+   cp_reissue_ok, CopyProofs5.cp_prog_reissue).
+
+   Tie to the C (tools/props/C17.py): (1) the reader's dump of the real copy is compared with the extracted spec_of of the
+   original program; (2) for programs whose sample data can be written as script ops, the file jls_copy produces is
+   byte-identical to the file the C writer produces from the calls rebuilt from the original's chunks in file order, and
+   the extracted Spec accepts those calls and reads them back as the original (an instance of cp_reissue).
 
    Outside these definitions (recorded separately):
-   - FSR blocks omitted by the writer (jls_wr_fsr_omit_data) are not re-emitted by jls_copy, which copies only the
-     stored DATA chunks: Spec has no omission (WOmit never changes the content), so this known finding of the C
-     does not appear here;
-   - an unclosed original: its readable content is spec_of of the calls whose chunks reached the file (C03/C19);
-   - 32-bit wrap when the stored (already aligned) definition is aligned again (C16, sigdef-renormalise-overflow):
-     Spec.sp_align has no overflow. *)
+   - FSR blocks omitted by the writer (jls_wr_fsr_omit_data, or automatically for constant blocks of <= 8-bit types) have
+     no DATA chunk, so jls_copy does not re-issue them: they come back as gap fill, or the signal is shorter when the
+     last block was omitted (known finding K-C17-copy-omitted-blocks).  Spec has no omission (WOmit never changes the
+     content), so the original's Spec content is the un-omitted stream; the effect of leaving blocks out is stated with
+     [cp_drop] (CopyProofs6.cp_dropped_block_refuted, cp_dropped_last_block_refuted): clause (ii) of cp_reissue is the
+     guard that fails;
+   - an unclosed original: its readable content is spec_of of the calls whose chunks reached the file (C03/C19); the
+     theorems apply to that program;
+   - 32-bit wrap when the stored (already aligned) definition is aligned again: Spec.sp_align has no overflow
+     (CopyProofs.cp_align_idem); the current C has none either (fix 591c3d3; C16 model: CopyProofs6.cp_realign_current),
+     the code before the fix did (cp_realign_old_refuted). *)
 From Coq Require Import NArith ZArith List Bool.
 From JLS Require Import Generated Spec.
 Import ListNotations.
